@@ -1,2 +1,62 @@
-(* Properties_C11_tdigest.v - statements are added below as the proofs land *)
-From DS Require Import TDigestCodecDefs.
+(* Properties_C11_tdigest.v — truncated or corrupted tdigest<double> images.  Statements only; proofs in TDigestCodecProofs.v.  [dec] is a
+   total function on ARBITRARY byte lists (a read outside the supplied bytes is [take] returning None, i.e. a rejection) and describes
+   both readers with fixes/11_tdigest_compat_stream_state.patch and 11_tdigest_compat_casts.patch applied; the behaviour of the
+   readers as found is in Regression_tdigestcodec.v. *)
+From Coq Require Import NArith List Bool.
+From DS Require Import Word TDigestCodecDefs TDigestCodecProofs.
+Import ListNotations.
+Local Open Scope N_scope.
+
+(* every strict prefix of the image of a well-formed digest is rejected (by both readers) *)
+Theorem C11_td_prefix_rejected : forall s, wf s -> forall n, (n < length (enc s))%nat -> dec (firstn n (enc s)) = None.
+Proof. exact prefix_rejected. Qed.
+
+(* ... and so is every strict prefix of ANY image that is accepted and consumed entirely: native or reference format, written by
+   whatever encoder *)
+Theorem C11_td_prefix_rejected_any : forall b s, dec b = Some (s, []) -> forall n, (n < length b)%nat -> dec (firstn n b) = None.
+Proof. exact prefix_of_exact_rejected. Qed.
+
+(* ARBITRARY bytes: whatever is accepted was consumed from a prefix c of the input that holds at least 8 bytes per centroid and per
+   buffered value of the resulting digest (no content beyond the supplied bytes), and k passed the constructor's test *)
+Theorem C11_td_accept_bounded : forall b s r, dec b = Some (s, r) ->
+  exists c, b = c ++ r /\ (8 + 8 * (length (c_cents s) + length (c_buf s)) <= length c)%nat /\ 10 <= c_k s.
+Proof. exact dec_bounded. Qed.
+
+(* ARBITRARY bytes: bytes after an accepted image are never looked at (the stream reader leaves them unread) *)
+Theorem C11_td_trailing_ignored : forall b s r e, dec b = Some (s, r) -> dec (b ++ e) = Some (s, r ++ e).
+Proof. exact dec_ext. Qed.
+
+(* reference formats: a k or a weight that the integer type cannot represent (negative, NaN, infinite, too large) is rejected *)
+Theorem C11_td_compat_bad_k : forall mn mx kd cs rest,
+  mn < two64 -> mx < two64 -> kd < two64 -> N.of_nat (length cs) < two32 ->
+  f64_to_N two16 kd = None -> dec (enc_compat_d mn mx kd cs ++ rest) = None.
+Proof. exact compat_d_bad_k. Qed.
+
+Theorem C11_td_compat_bad_weight : forall mn mx kd m wd cs rest,
+  mn < two64 -> mx < two64 -> kd < two64 -> N.of_nat (length ((m, wd) :: cs)) < two32 -> m < two64 -> wd < two64 ->
+  f64_to_N two64 wd = None -> dec (enc_compat_d mn mx kd ((m, wd) :: cs) ++ rest) = None.
+Proof. exact compat_d_bad_weight. Qed.
+
+(* non-vacuity: -1.0, NaN, +inf, 2^64, 65536.0 are not representable; -0.0, 0.99, 65535.5, 2^64 - 2048 are *)
+Example C11_ex_casts :
+  f64_to_N two64 13830554455654793216 = None /\ f64_to_N two64 9221120237041090560 = None /\ f64_to_N two64 9218868437227405312 = None /\
+  f64_to_N two64 4895412794951729152 = None /\ f64_to_N two16 4679240012837945344 = None /\
+  f64_to_N two64 9223372036854775808 = Some 0 /\ f64_to_N two64 4607092346807469998 = Some 0 /\
+  f64_to_N two16 4679239875398991872 = Some 65535 /\ f64_to_N two64 4895412794951729151 = Some 18446744073709549568.
+Proof. vm_compute. repeat split; reflexivity. Qed.
+Example C11_ex_prefixes :
+  let img := enc {| c_k := 10; c_rev := true; c_min := 4607182418800017408; c_max := 4613937818241073152;
+                    c_cents := [(4607182418800017408, 1); (4611686018427387904, 2)]; c_buf := [4613937818241073152] |} in
+  length img = 72%nat /\ forallb (fun n => match dec (firstn n img) with None => true | Some _ => false end) (seq 0 72) = true /\
+  (* a corrupted count: 3 centroids announced, only 2 present *)
+  dec (set_nth 8 3 img) = None /\
+  (* a corrupted count that still fits: 1 centroid announced: accepted with less content, the rest is left unread *)
+  (match dec (set_nth 8 1 (set_nth 12 0 img)) with Some (s, r) => Nat.eqb (length (c_cents s)) 1 && Nat.eqb (length r) 24 | None => false end) = true.
+Proof. vm_compute. repeat split; reflexivity. Qed.
+
+Print Assumptions C11_td_prefix_rejected.
+Print Assumptions C11_td_prefix_rejected_any.
+Print Assumptions C11_td_accept_bounded.
+Print Assumptions C11_td_trailing_ignored.
+Print Assumptions C11_td_compat_bad_k.
+Print Assumptions C11_td_compat_bad_weight.
